@@ -1,5 +1,5 @@
 \* the check (harness/checks/c20.py) generates its cfgs itself; this one is for manual runs
-CONSTANTS N = 4  EARLY_PUBLISH = FALSE  SPLIT_ASSIGN = FALSE
+CONSTANTS N = 4  EARLY_PUBLISH = FALSE  SPLIT_ASSIGN = FALSE  TORN_READ = FALSE
 SPECIFICATION Spec
 INVARIANTS TypeOK PubEmptyOrComplete CoordsOldOrNew AloneOK LocIsPrefix ReaderOK FinalOK
 PROPERTIES StepsAreEffects BuilderFinishes
